@@ -164,11 +164,11 @@ PROPS["C02"] = dict(
 PROPS["C03"] = dict(
     title='Concurrent use of the API is free of data races and deadlocks',
     theorems="Properties/C03.v",
-    proof_files=["Bus/BusModel.v", "Bus/BusRun.v", "Bus/BusInv.v", "Properties/C03.v"],
+    proof_files=["Bus/BusModel.v", "Bus/BusRun.v", "Bus/BusInv.v", "Bus/BusLeaf.v", "Properties/C03.v"],
     suites=[dict(name="race", mod="core", family="race", corr="Corr.CorrRace", check="check03r", shard=200, race=True, timeout=2400, crash_is_failure=True),
             dict(name="bus03", mod="core", family="bus03", corr="Corr.BusOracle", check="check03d", shard=25),
             dict(name="buscon", mod="core", family="buscon", corr="Corr.BusOracle", check="check03d", shard=25), dict(name="waitstress", mod="core", family="waitstress", corr="Corr.CorrStress", check="check_wait", shard=100, timeout=1800)],
-    level_text='Partial. Data-race half: NOT a theorem (the Go memory model is outside the Gallina model, whose micro-steps are atomic); sampled by free-running mixes of every kind of public API call (publish, subscribe, unsubscribe, clear, queries, Wait, Replay, upcast registry, the bundled stores directly, SubscribeWithReplay, the state materializer) from 2-8 goroutines with re-entrant handlers and hooks, under the Go race detector, with a watchdog for global blocking and a count of panics escaping an API call. Deadlock half, proved in Coq on the small-step bus model over every schedule: a Sequential handler mutex has a single owner who still carries the matching deferred unlock; Wait and Shutdown wait exactly on the number of running deliveries; only six kinds of instruction can block at all (handler mutex, store mutex, Wait, the waiter and the select of Shutdown, and the start of an Async+Sequential delivery that is not yet at the head of the queue of its handler - whose head is always an unfinished delivery); no handler mutex is ever orphaned (its recorded holder still carries the deferred unlock), the store-mutex holder can always step, a pending Shutdown always has its waiter, Wait/Shutdown instructions occur only below every delivery frame (for programs whose handlers, filters and hooks do not call them), and - progress - for such programs some goroutine can always step in every reachable state whose handler-mutex waits are acyclic and in which no goroutine has died of an unrecovered panic (the waits of Async+Sequential deliveries for their turn are proved never to close a cycle: C03_progress_mutex_waits_only); the documented exception (a synchronous Sequential handler whose publish is delivered back to itself) is exhibited as a reachable blocked state. Tied to the code by controller-driven runs (suites bus03, buscon) in which every thread the real bus leaves blocked must be blocked in the model too and must be waiting for a mutex it holds itself.',
+    level_text='Partial. Data-race half: NOT a theorem (the Go memory model is outside the Gallina model, whose micro-steps are atomic); sampled by free-running mixes of every kind of public API call (publish, subscribe, unsubscribe, clear, queries, Wait, Replay, upcast registry, the bundled stores directly, SubscribeWithReplay, the state materializer) from 2-8 goroutines with re-entrant handlers and hooks, under the Go race detector, with a watchdog for global blocking and a count of panics escaping an API call. Deadlock half, proved in Coq on the small-step bus model over every schedule: a Sequential handler mutex has a single owner who still carries the matching deferred unlock; Wait and Shutdown wait exactly on the number of running deliveries; only six kinds of instruction can block at all (handler mutex, store mutex, Wait, the waiter and the select of Shutdown, and the start of an Async+Sequential delivery that is not yet at the head of the queue of its handler - whose head is always an unfinished delivery); no handler mutex is ever orphaned (its recorded holder still carries the deferred unlock), the store-mutex holder can always step, a pending Shutdown always has its waiter, Wait/Shutdown instructions occur only below every delivery frame (for programs whose handlers, filters and hooks do not call them), and - progress - for such programs some goroutine can always step in every reachable state whose handler-mutex waits are acyclic and in which no goroutine has died of an unrecovered panic (the waits of Async+Sequential deliveries for their turn are proved never to close a cycle: C03_progress_mutex_waits_only); and for the programs whose Sequential handlers do not publish (handlers that are not Sequential, filters, hooks and the panic handler may) the acyclicity hypothesis is discharged altogether: the frames of Sequential handlers never nest, whoever waits for a handler mutex holds none, and some goroutine can always step (C03_progress_when_sequential_handlers_do_not_publish); the documented exception (a synchronous Sequential handler whose publish is delivered back to itself) is exhibited as a reachable blocked state. Tied to the code by controller-driven runs (suites bus03, buscon) in which every thread the real bus leaves blocked must be blocked in the model too and must be waiting for a mutex it holds itself.',
     level_note='Trusted: Coq kernel + vm_compute; the Go race detector (finds only races that the sampled interleavings execute); the hand-written small-step model of event_bus.go and the controller harness (see C01); the watchdog budget of 30 s per case.',
     rule='race suite: cases = seeded mixes, 2-8 goroutines x 25-75 calls (thorough 40-160), GOMAXPROCS in {1,2,4,16}, store none/memory/SQLite in-memory, Sequential handlers never call back (self-delivery is the documented exception); bus03/buscon: seeded random programs under the controller, three directed programs first (self-delivery, indirect self-delivery, re-entrant subscribe/unsubscribe/clear/publish from handler, filter and hooks); non-trivial = every case; distinct = distinct program',
 )
